@@ -51,11 +51,12 @@ SendAct ==
 SendLockedAct ==
   /\ On("sendlocked") /\ Rich # {} /\ Often(40)
   /\ \E wm \in Pick(Rich) :
-     \E a \in Pick({x \in SendAmts : x + 3 <= b[wm[1]][wm[2]]} \cup {1}), to \in Pick(Wallets \ {wm[1]}), f \in Pick(BOOLEAN) :
+     \E a \in Pick({x \in SendAmts : x + 3 <= b[wm[1]][wm[2]]} \cup {1}), to \in Pick(Wallets \ {wm[1]}), f \in Pick(BOOLEAN),
+        sa \in Pick({FALSE, FALSE, TRUE}) :
        /\ b' = [b EXCEPT ![wm[1]][wm[2]] = @ - a - 2]
        /\ toks' = Append(toks, [id |-> "t" \o ToString(ntok + 1), mint |-> wm[2], amt |-> a, to |-> to, used |-> FALSE])
        /\ ntok' = ntok + 1
-       /\ Record([op |-> "sendlocked", w |-> wm[1], m |-> wm[2], amt |-> a, to |-> to, fees |-> f])
+       /\ Record([op |-> "sendlocked", w |-> wm[1], m |-> wm[2], amt |-> a, to |-> to, fees |-> f, sigall |-> sa])
   /\ UNCHANGED nmelt
 
 ReceiveAct ==
